@@ -254,3 +254,17 @@ def derived_fns(db):
         _DERIVED.clear()
         _DERIVED[id(db)] = d
     return d
+
+
+def with_let_inits(db, f, expr, depth=4, _seen=None):
+    """nodes of `expr` plus, transitively, the initialisers of the let-bound locals it mentions"""
+    ix = index(db)
+    if _seen is None:
+        _seen = set()
+    for n, _ in walk(expr):
+        yield n
+        if n.get("k") == "Path" and n.get("res") == "local" and depth > 0 and n["lid"] not in _seen:
+            _seen.add(n["lid"])
+            b = ix.bindings(f).get(n["lid"])
+            if b and b[0] == "let" and b[1] is not None:
+                yield from with_let_inits(db, f, b[1], depth - 1, _seen)
